@@ -13,9 +13,10 @@ import sys
 VERIF = os.path.dirname(os.path.dirname(os.path.abspath(__file__)))
 if VERIF not in sys.path:
   sys.path.insert(0, VERIF)
-if '/repo' in sys.path:
-  sys.path.remove('/repo')
-sys.path.insert(0, '/repo')
+REPO = os.environ.get('VERIF_REPO', '/repo')     # seeded-change runs point this at a scratch worktree
+if REPO in sys.path:
+  sys.path.remove(REPO)
+sys.path.insert(0, REPO)
 
 
 def _run(module, fn, params, argsets):
